@@ -35,3 +35,42 @@ Theorem kill_list_exact f rk fuel pid x :
 Proof.
   intros R Hf. unfold kill_list. simpl. rewrite (collect_exact f rk fuel pid x R Hf). split; intros [H|H]; auto.
 Qed.
+
+(** the keep-alive loop waits exactly until the limit or the end of the process, whichever comes first *)
+Local Open Scope Z_scope.
+Lemma join_loop_waits : forall fuel limit run elapsed,
+  elapsed <= limit -> limit - elapsed <= 600 * Z.of_nat fuel ->
+  fst (join_loop fuel limit run elapsed) = Z.max elapsed (Z.min limit run).
+Proof.
+  induction fuel as [|f IH]; intros limit run elapsed Hle Hf.
+  - cbn [join_loop fst]. change (Z.of_nat 0) with 0%Z in Hf. lia.
+  - cbn [join_loop]. destruct (Z.leb_spec limit elapsed) as [H|H]; [cbn [fst]; lia|].
+    unfold slice_len. destruct (Z.ltb_spec 600 (limit - elapsed)) as [H6|H6].
+    + destruct (Z.leb_spec run (elapsed + 600)) as [Hr|Hr].
+      * destruct (Z.leb_spec run (Z.max elapsed run)); [cbn [fst]; lia | lia].
+      * destruct (Z.leb_spec run (elapsed + 600)); [lia|].
+        specialize (IH limit run (elapsed + 600)). destruct (join_loop f limit run (elapsed + 600)) as [r l]. cbn [fst] in *.
+        rewrite IH; lia.
+    + destruct (Z.leb_spec run (elapsed + (limit - elapsed))) as [Hr|Hr].
+      * destruct (Z.leb_spec run (Z.max elapsed run)); [cbn [fst]; lia | lia].
+      * destruct (Z.leb_spec run (elapsed + (limit - elapsed))); [lia|].
+        specialize (IH limit run (elapsed + (limit - elapsed))). destruct (join_loop f limit run (elapsed + (limit - elapsed))) as [r l].
+        cbn [fst] in *. rewrite IH; lia.
+Qed.
+
+Lemma join_loop_slices : forall fuel limit run elapsed x,
+  elapsed <= limit -> In x (snd (join_loop fuel limit run elapsed)) -> 0 < x <= 600.
+Proof.
+  induction fuel as [|f IH]; intros limit run elapsed x Hle Hin; [destruct Hin|].
+  cbn [join_loop] in Hin. destruct (Z.leb_spec limit elapsed) as [H|H]; [destruct Hin|].
+  assert (S : 0 < slice_len limit elapsed <= 600) by (unfold slice_len; destruct (Z.ltb_spec 600 (limit - elapsed)); lia).
+  destruct (run <=? (if run <=? elapsed + slice_len limit elapsed then Z.max elapsed run else elapsed + slice_len limit elapsed)) eqn:E.
+  - destruct Hin as [Hx|[]]. subst. exact S.
+  - destruct (Z.leb_spec run (elapsed + slice_len limit elapsed)) as [A|A].
+    + apply Z.leb_gt in E. lia.
+    + destruct (join_loop f limit run (elapsed + slice_len limit elapsed)) as [r l] eqn:J. simpl in Hin.
+      destruct Hin as [Hx|Hx]; [subst; exact S|].
+      apply (IH limit run (elapsed + slice_len limit elapsed) x); [unfold slice_len in *; destruct (Z.ltb_spec 600 (limit - elapsed)); lia|].
+      rewrite J. exact Hx.
+Qed.
+Local Close Scope Z_scope.
